@@ -534,24 +534,24 @@ def cert_items(ctx):
             for p, fam in keep:
                 items.append({"kind": "euler", "sel": sel, "b1950": b, "pt": list(p), "family": "euler:" + fam,
                               "via": r.choice(["euler", WRAPPER[sel]]), "scalar": r.random() < 0.5})
-            for _ in range(scale):
+            for _ in range(scale if not (ctx.quick() and (sel + b) % 2) else 0):
                 p = r.choice(pts)[0]
                 q, fam = pair_near(r, p)
                 items.append({"kind": "euler_pair", "sel": sel, "b1950": b, "pt": list(p), "pt2": list(q), "family": "euler:" + fam})
         for d in ("ec2gal", "gal2ec"):
-            for _ in range(2 * scale):
+            for _ in range(ctx.n(1, 2 * scale)):
                 sel = 5 if d == "ec2gal" else 6
                 p, fam = r.choice(euler_points(r, sel, b, 2))
                 items.append({"kind": "chain", "dir": d, "b1950": b, "pt": list(p), "family": "chain:" + fam})
     # SDSS
     node = [(95.0, 0.0), (275.0, 0.0), (95.0 + small(r), small(r)), (275.0 + small(r), small(r)), (185.0, 32.5), (5.0, -32.5),
             (0.0, 10.0), (360.0, -10.0), (r.uniform(0, 360), 90.0), (r.uniform(0, 360), -(90.0 - abs(small(r))))]
-    for p in (node if not ctx.quick() else r.sample(node, 5)) + [sphere_pt(r) for _ in range(3 * scale)]:
+    for p in (node if not ctx.quick() else r.sample(node, 4)) + [sphere_pt(r) for _ in range(ctx.n(1, 3 * scale))]:
         items.append({"kind": "sdss", "pt": list(clamp_pt(*p)) if p[0] != 360.0 else list(p), "family": "sdss:fwd", "scalar": r.random() < 0.5})
     rev = [(90.0, 0.0), (-90.0, 30.0), (90.0 - abs(small(r)), -40.0), (0.0, 57.5), (0.0, 57.5 + small(r)), (0.0, -122.5), (10.0, 180.0), (10.0, -180.0)]
-    for p in (rev if not ctx.quick() else r.sample(rev, 4)) + [(sphere_pt(r)[1], r.uniform(-180, 180)) for _ in range(2 * scale)]:
+    for p in (rev if not ctx.quick() else r.sample(rev, 3)) + [(sphere_pt(r)[1], r.uniform(-180, 180)) for _ in range(ctx.n(1, 2 * scale))]:
         items.append({"kind": "sdss_rev", "pt": list(p), "family": "sdss:rev", "scalar": r.random() < 0.5})
-    for _ in range(3 * scale):
+    for _ in range(ctx.n(2, 3 * scale)):
         p = r.choice(node + [sphere_pt(r)])
         p = clamp_pt(*p) if p[0] != 360.0 else p
         q, fam = pair_near(r, p)
@@ -561,12 +561,12 @@ def cert_items(ctx):
         for stomp in (False, True):
             base = [(0.0, 0.0), (360.0, 0.0), (95.0, 0.0), (r.uniform(0, 360), 90.0), (r.uniform(0, 360), -90.0), (10.0, 90.0 - abs(small(r))),
                     (r.uniform(0, 94.9), r.uniform(-80, 80)), (r.uniform(0, 360), -(90.0 - abs(small(r))))]
-            pts = (r.sample(base, 2) if ctx.quick() else base) + [sphere_pt(r) for _ in range(scale)]
+            pts = (r.sample(base, 1) if ctx.quick() else base) + [sphere_pt(r) for _ in range(scale)]
             for p in pts:
                 pp = p if units == "deg" else (math.radians(p[0]), math.radians(p[1]))
                 items.append({"kind": "xyz", "units": units, "stomp": stomp, "pt": list(pp), "family": "xyz:%s:%s" % (units, "stomp" if stomp else "plain"),
                               "scalar": r.random() < 0.5})
-            for _ in range(scale):
+            for _ in range(scale if not (ctx.quick() and stomp) else 0):
                 p = r.choice(base + [sphere_pt(r)])
                 q, fam = pair_near(r, clamp_pt(*p))
                 if units == "rad":
@@ -574,7 +574,7 @@ def cert_items(ctx):
                 items.append({"kind": "xyz_pair", "units": units, "stomp": stomp, "pt": list(p), "pt2": list(q), "family": "xyz:" + fam})
     # rotate: random and special Euler angles
     co = _coords()
-    for _ in range(4 * scale):
+    for _ in range(ctx.n(3, 4 * scale)):
         ang = [r.choice([r.uniform(-360, 360), r.uniform(-360, 360), float(r.randrange(-4, 5) * 90), 0.0]) for _ in range(3)]
         pts = [(sphere_pt(r), "uniform"), ((r.uniform(0, 360), r.choice([90.0, -90.0])), "source-pole")]
         for s in (90.0, -90.0):
@@ -607,7 +607,7 @@ def certify(ctx, items, tag):
         for name, kind, st in lem:
             lemmas.append((st, "c09_cert."))
             owner.append((i, name, kind, st))
-    res = core.coq_lemmas(ctx.work + "/" + tag, PRE_R, lemmas, shard=10, tag=tag) if lemmas else []
+    res = core.coq_lemmas(ctx.work + "/" + tag, PRE_R, lemmas, shard=ctx.n(14, 24), tag=tag) if lemmas else []
     failed = [j for j, (ok, _) in enumerate(res) if not ok]
     refuted = {}
     if failed:
